@@ -325,10 +325,17 @@ func genCase(r *kit.Rand, i int, tier string) []string {
 		}
 	}
 	ops = append(ops, "final")
+	if r.Chance(1, 8) {
+		// times around and before the epoch (zero and negative Unix times are ordinary point times)
+		off := int64(kit.Pick(r, []int{12, 30, 120, 160, 100000}))
+		for k, l := range ops {
+			ops[k] = mapTimes(l, func(t int64) int64 { return t - off })
+		}
+	}
 	if fn == "elapsed" {
 		// units are whole microseconds in TICKscript: spread the (nanosecond) times out, keeping equal times equal
 		for k, l := range ops {
-			ops[k] = scaleTimes(l)
+			ops[k] = mapTimes(l, tmap)
 		}
 	}
 	return ops
@@ -336,12 +343,12 @@ func genCase(r *kit.Rand, i int, tier string) []string {
 
 func tmap(t int64) int64 { return t*1000 + (t*t*37)%1000 }
 
-func scaleTimes(line string) string {
+func mapTimes(line string, f func(int64) int64) string {
 	t := strings.Fields(line)
 	conv := func(s string) string {
 		var v int64
 		fmt.Sscanf(s, "%d", &v)
-		return fmt.Sprintf("%d", tmap(v))
+		return fmt.Sprintf("%d", f(v))
 	}
 	scalePts := func(tok string) string {
 		if tok == "-" {
